@@ -6,7 +6,7 @@
    Assumed, not proved (DESIGN section 2): one write call on the transport is atomic. *)
 From Coq Require Import ZArith NArith List Bool Permutation.
 From Pygls Require Import Base.Unicode Base.Json Model.Wire Spec.WireSpec
-  Proofs.JsonProofs Proofs.LoadsProofs Proofs.WireProofs.
+  Proofs.JsonProofs Proofs.WireProofs.
 Open Scope N_scope.
 
 Definition C03_statement : Prop :=
@@ -104,8 +104,8 @@ Example C03_nonvacuous :
   option_map (map loads_chars) (spec_decode (stream ops)) =
     Some (map Some [notification_tree [109] (JStr [233; 0x1F60B; 0xD800; 34; 92; 10; 127]);
                     error_response_tree (JStr [97]) internal_error;
-                    response_tree (JInt 1) (JArr [JNull; JBool true; JInt (-12)]);
-                    request_tree (JInt 7) [114] JNull]).
+                    request_tree (JInt 7) [114] JNull;
+                    response_tree (JInt 1) (JArr [JNull; JBool true; JInt (-12)])]).
 Proof.
   split; [reflexivity|]. split; [reflexivity|]. split; [apply run_schedule_interleave|].
   vm_compute. repeat split.
